@@ -23,6 +23,7 @@ package bug
 //@   props C10
 //@   maypanic
 //@   opt pre_only_if=commentids
+//@   opt total_post
 //@   requires [has-id] c.combinedId != ""
 //@   modifies nothing
 //@   ensures result == c.combinedId
